@@ -57,6 +57,12 @@ structure SS where
 tied by translation in Proofs/GoFuncs/C20Sync.lean). The driver checks the `b0` of every case against it. -/
 def windowBase (p mtb : Nat) : Nat := if p > mtb then p - mtb else 0
 
+/-- The sync point a fresh node chooses for a source at height `top`: the last multiple of the interval, unless the
+chain is too low for state sync (Init, module.go:188-193; tied by translation in Proofs/GoFuncs/C20Sync.lean). The
+driver checks the `P` of every case against it. -/
+def syncPointOf (top interval : Nat) : Option Nat :=
+  if top / interval * interval < 2 * interval then none else some (top / interval * interval)
+
 def SS.init (c : SCfg) : SS :=
   { stage := .headers, hh := 0, bh := 0, storedBh := 0, bs := BS.init c.root, blocks := [], jumped := false }
 
